@@ -265,6 +265,19 @@ static Plan gen_plan(uint64_t seed, const std::string& profile_name, uint64_t ru
     }
     for (int i = 0; i < L; ++i) {
       Step s = gen_op(r, P, c, nh, p, true);
+      if (s.op == OP_SET || s.op == OP_SET_VEC || s.op == OP_INIT_PARAM) {
+        // a store is often followed by a comparison with an instance that only ever saw the new values
+        double pf = p.profile == "C10" ? 0.35 : p.profile == "C11" ? 0.3 : p.profile == "GEN" ? 0.15 : 0.05;
+        if (r.bern(pf)) {
+          p.steps.push_back(s);
+          Step f;
+          f.client = c;
+          f.u = r.next();
+          f.op = r.bern(0.6) ? OP_FRESH : OP_TWIN;
+          p.steps.push_back(f);
+          continue;
+        }
+      }
       if (s.op == OP_INIT) {
         if (ninits >= 8) continue;
         int hh = p.racy ? s.h : h;
